@@ -92,5 +92,8 @@ pub use crate::version::*;
 mod rpm;
 pub use crate::rpm::*;
 
+#[cfg(rpm_verif)]
+pub mod verif_hooks;
+
 #[cfg(test)]
 mod tests;
